@@ -18,33 +18,41 @@ def wrapS (n : Nat) (x : Int) : Int := (x + 2 ^ (n - 1)) % 2 ^ n - 2 ^ (n - 1)
 /-- Go's `uintN(x)` for an integer `x`. -/
 def wrapU (n : Nat) (x : Int) : Int := x % 2 ^ n
 
-/-- How the float branch of `toInt8 … toUint32` (runtime.go:1009-1130) obtains an `int64` from the double.
-`raw` : `int64(f)`                   — code at the pinned commit; out of range the result is whatever the CPU
-                                       gives: on amd64 (CVTTSD2SI) the "integer indefinite" value -2^63
-`mod` : `int64` of `f` reduced mod 2^64 — the repaired form (fixes/C05-toIntN-beyond-int64.diff) -/
-inductive Core where
-  | raw | mod
-deriving DecidableEq, Repr
+/-- `math.Mod(x, 2^64)` for an integral `x`: magnitude `|x| mod 2^64`, sign of `x` (exact). -/
+def goModTwo64 (t : Int) : Int := if t ≥ 0 then t % 2 ^ 64 else -((-t) % 2 ^ 64)
 
-/-- `int64(f)` for a finite double on amd64. -/
-def goInt64 (f : F64) : Int :=
+/-- runtime.go `float64ToInt64Mod` (fix c5b41a6) on a finite double: `int64(f)` when `f` fits, else reduce
+modulo 2^64 first (`int64(f)` is implementation-defined in Go outside the int64 range).  The comparisons
+`f >= -2^63 && f < 2^63` are on the double; both bounds are integers, so they hold iff they hold for trunc(f). -/
+def float64ToInt64Mod (f : F64) : Int :=
+  let t := f.truncInt
+  if -(2 ^ 63) ≤ t ∧ t < 2 ^ 63 then t                 -- return int64(f)
+  else
+    let m := goModTwo64 t                               -- f = math.Mod(f, two64)   (|f| ≥ 2^63: f is integral)
+    if m ≥ 2 ^ 63 then m - 2 ^ 64                       -- f -= two64
+    else if m < -(2 ^ 63) then m + 2 ^ 64               -- f += two64
+    else m
+
+/-- `int64(f)` for a finite double on amd64 (out of range: the "integer indefinite" -2^63): what the float
+branch of `toInt8…toUint32` used BEFORE c5b41a6.  Regression witnesses only. -/
+def goInt64Prefix (f : F64) : Int :=
   let t := f.truncInt
   if minInt64 ≤ t ∧ t ≤ maxInt64 then t else minInt64
 
-def coreInt64 (c : Core) (f : F64) : Int :=
-  match c with
-  | .raw => goInt64 f
-  | .mod => wrapS 64 f.truncInt
-
 /-- runtime.go:1009-1130: `toInt8`, `toInt16`, `toInt32` (signed, `n` bits) on a Number. -/
-def toIntS (c : Core) (n : Nat) : Num → Int
+def toIntS (n : Nat) : Num → Int
   | int i => wrapS n i
-  | flt f => if !f.isNaN && !f.isInf then wrapS n (coreInt64 c f) else 0
+  | flt f => if !f.isNaN && !f.isInf then wrapS n (float64ToInt64Mod f) else 0
 
 /-- `toUint8`, `toUint16`, `toUint32`. -/
-def toIntU (c : Core) (n : Nat) : Num → Int
+def toIntU (n : Nat) : Num → Int
   | int i => wrapU n i
-  | flt f => if !f.isNaN && !f.isInf then wrapU n (coreInt64 c f) else 0
+  | flt f => if !f.isNaN && !f.isInf then wrapU n (float64ToInt64Mod f) else 0
+
+/-- `toInt32` before c5b41a6 (regression witness only). -/
+def toInt32Prefix : Num → Int
+  | int i => wrapS 32 i
+  | flt f => if !f.isNaN && !f.isInf then wrapS 32 (goInt64Prefix f) else 0
 
 /-- value.go:570 `floatToIntClip`. -/
 def floatToIntClip (f : F64) : Int :=
@@ -155,55 +163,43 @@ def specToUint8Clamp (x : F64) : Int :=
 
 `r` is the IEEE result of the float path (`left.ToFloat() op right.ToFloat()`), supplied as data. -/
 
-/-- Which int×int products `_mul` (vm.go:1357) sends to `_negativeZero` before multiplying.
-`minusOne`: `left == 0 && right == -1 || left == -1 && right == 0`  — code at the pinned commit
-`anyNeg`  : `left == 0 && right < 0 || left < 0 && right == 0`      — repaired (fixes/C05-mul-int-negzero.diff) -/
-inductive MulZ where
-  | minusOne | anyNeg
-deriving DecidableEq, Repr
-
-structure Shapes where
-  tail : Tail
-  core : Core
-  mulz : MulZ
-deriving DecidableEq, Repr
-
 /-- Go's `%` on `int64` (truncated). -/
 def goRem (x y : Int) : Int := Int.tmod x y
 /-- Go's `/` on `int64` (truncated). -/
 def goQuot (x y : Int) : Int := Int.tdiv x y
 
 /-- vm.go:1258 `_add` on two Numbers (operands are NOT passed through `toNumeric`). -/
-def opAdd (s : Shapes) (a b : Num) (r : F64) : Num :=
+def opAdd (a b : Num) (r : F64) : Num :=
   match a, b with
-  | int x, int y => intToValue s.tail (x + y)
+  | int x, int y => intToValue (x + y)
   | _, _ => floatToValue r
 
 /-- vm.go:1316 `_sub`. -/
-def opSub (s : Shapes) (a b : Num) (r : F64) : Num :=
+def opSub (a b : Num) (r : F64) : Num :=
   match toNumeric a, toNumeric b with
-  | int x, int y => intToValue s.tail (x - y)
+  | int x, int y => intToValue (x - y)
   | _, _ => floatToValue r
 
-/-- the condition guarding `result = _negativeZero` in `_mul` -/
-def mulNegZero (z : MulZ) (x y : Int) : Bool :=
-  match z with
-  | .minusOne => decide ((x = 0 ∧ y = -1) ∨ (x = -1 ∧ y = 0))
-  | .anyNeg => decide ((x = 0 ∧ y < 0) ∨ (x < 0 ∧ y = 0))
+/-- the condition guarding `result = _negativeZero` in `_mul` (fix bd78985):
+`left == 0 && right < 0 || left < 0 && right == 0` -/
+def mulNegZero (x y : Int) : Bool := decide ((x = 0 ∧ y < 0) ∨ (x < 0 ∧ y = 0))
+
+/-- the guard BEFORE bd78985 (`left == 0 && right == -1 || left == -1 && right == 0`); regression witness only -/
+def mulNegZeroPrefix (x y : Int) : Bool := decide ((x = 0 ∧ y = -1) ∨ (x = -1 ∧ y = 0))
 
 /-- vm.go:1357 `_mul`. -/
-def opMul (s : Shapes) (a b : Num) (r : F64) : Num :=
+def opMul (a b : Num) (r : F64) : Num :=
   match toNumeric a, toNumeric b with
   | int x, int y =>
-      if mulNegZero s.mulz x y then flt F64.negZero
+      if mulNegZero x y then flt F64.negZero
       else
         let res := wrapS 64 (x * y)                      -- res := left * right  (int64, wraps)
-        if x = 0 ∨ y = 0 ∨ goQuot res x = y then intToValue s.tail res
+        if x = 0 ∨ y = 0 ∨ goQuot res x = y then intToValue res
         else floatToValue r
   | _, _ => floatToValue r
 
 /-- vm.go:1436 `_div`: the explicit special cases, then `floatToValue(left / right)`. -/
-def opDiv (_s : Shapes) (a b : Num) (r : F64) : Num :=
+def opDiv (a b : Num) (r : F64) : Num :=
   let l := (toNumeric a).toF64
   let rt := (toNumeric b).toF64
   if l.isNaN || rt.isNaN then flt F64.canonNaN
@@ -215,59 +211,59 @@ def opDiv (_s : Shapes) (a b : Num) (r : F64) : Num :=
   else floatToValue r
 
 /-- vm.go:1511 `_mod`. -/
-def opMod (s : Shapes) (a b : Num) (r : F64) : Num :=
+def opMod (a b : Num) (r : F64) : Num :=
   match toNumeric a, toNumeric b with
   | int x, int y =>
       if y = 0 then flt F64.canonNaN
       else
         let m := goRem x y
-        if m = 0 ∧ x < 0 then flt F64.negZero else intToValue s.tail m
+        if m = 0 ∧ x < 0 then flt F64.negZero else intToValue m
   | _, _ => floatToValue r
 
 /-- vm.go:1574 `_neg` (after fix 7eaf95e). -/
-def opNeg (_s : Shapes) (a : Num) (r : F64) : Num :=
+def opNeg (a : Num) (r : F64) : Num :=
   match toNumeric a with
   | int n => if n = 0 then flt F64.negZero else int (-n)
   | flt _ => floatToValue r
 
 /-- vm.go:1613 `_inc` (after fix 7eaf95e). -/
-def opInc (s : Shapes) (a : Num) (r : F64) : Num :=
+def opInc (a : Num) (r : F64) : Num :=
   match a with
-  | int n => intToValue s.tail (n + 1)
+  | int n => intToValue (n + 1)
   | flt _ => floatToValue r
 
 /-- vm.go:1633 `_dec`. -/
-def opDec (s : Shapes) (a : Num) (r : F64) : Num :=
+def opDec (a : Num) (r : F64) : Num :=
   match a with
-  | int n => intToValue s.tail (n - 1)
+  | int n => intToValue (n - 1)
   | flt _ => floatToValue r
 
-def toInt32 (s : Shapes) (a : Num) : Int := toIntS s.core 32 a
-def toUint32 (s : Shapes) (a : Num) : Int := toIntU s.core 32 a
+def toInt32 (a : Num) : Int := toIntS 32 a
+def toUint32 (a : Num) : Int := toIntU 32 a
 
 /-- Bitwise AND/OR/XOR of two int32 values, through their low 32 bits. -/
 def bit32 (f : Nat → Nat → Nat) (x y : Int) : Int :=
   wrapS 32 (Int.ofNat (f (wrapU 32 x).toNat (wrapU 32 y).toNat))
 
 /-- vm.go:1653-1830: every bitwise operator is `intToValue(int64(<32-bit result>))`. -/
-def opAnd (s : Shapes) (a b : Num) : Num :=
-  intToValue s.tail (bit32 Nat.land (toInt32 s (toNumeric a)) (toInt32 s (toNumeric b)))
-def opOr (s : Shapes) (a b : Num) : Num :=
-  intToValue s.tail (bit32 Nat.lor (toInt32 s (toNumeric a)) (toInt32 s (toNumeric b)))
-def opXor (s : Shapes) (a b : Num) : Num :=
-  intToValue s.tail (bit32 Nat.xor (toInt32 s (toNumeric a)) (toInt32 s (toNumeric b)))
-def opBnot (s : Shapes) (a : Num) : Num :=
-  intToValue s.tail (-(toInt32 s (toNumeric a)) - 1)
+def opAnd (a b : Num) : Num :=
+  intToValue (bit32 Nat.land (toInt32 (toNumeric a)) (toInt32 (toNumeric b)))
+def opOr (a b : Num) : Num :=
+  intToValue (bit32 Nat.lor (toInt32 (toNumeric a)) (toInt32 (toNumeric b)))
+def opXor (a b : Num) : Num :=
+  intToValue (bit32 Nat.xor (toInt32 (toNumeric a)) (toInt32 (toNumeric b)))
+def opBnot (a : Num) : Num :=
+  intToValue (-(toInt32 (toNumeric a)) - 1)
 /-- `toInt32(left) << (toUint32(right) & 0x1F)` in `int32` arithmetic. -/
-def opShl (s : Shapes) (a b : Num) : Num :=
-  intToValue s.tail (wrapS 32 (toInt32 s (toNumeric a) * 2 ^ ((toUint32 s (toNumeric b)).toNat % 32)))
+def opShl (a b : Num) : Num :=
+  intToValue (wrapS 32 (toInt32 (toNumeric a) * 2 ^ ((toUint32 (toNumeric b)).toNat % 32)))
 /-- `toInt32(left) >> (toUint32(right) & 0x1F)` (arithmetic shift = floor division; the Go expression has type
 `int32`, hence the outer `wrapS 32`, which is the identity on the quotient). -/
-def opSar (s : Shapes) (a b : Num) : Num :=
-  intToValue s.tail (wrapS 32 (toInt32 s (toNumeric a) / 2 ^ ((toUint32 s (toNumeric b)).toNat % 32)))
+def opSar (a b : Num) : Num :=
+  intToValue (wrapS 32 (toInt32 (toNumeric a) / 2 ^ ((toUint32 (toNumeric b)).toNat % 32)))
 /-- `toUint32(left) >> (toUint32(right) & 0x1F)` (type `uint32`). -/
-def opShr (s : Shapes) (a b : Num) : Num :=
-  intToValue s.tail (wrapU 32 (toUint32 s (toNumeric a) / 2 ^ ((toUint32 s (toNumeric b)).toNat % 32)))
+def opShr (a b : Num) : Num :=
+  intToValue (wrapU 32 (toUint32 (toNumeric a) / 2 ^ ((toUint32 (toNumeric b)).toNat % 32)))
 
 /-! ## Spec results of the operators, on doubles
 
